@@ -10,7 +10,10 @@ open SE
 theorem metricLineRE : Gen.metricLineRE = "^(\\*|[a-zA-Z_]([a-zA-Z0-9_\\-])*)(\\.\\*|\\.[a-zA-Z0-9_]([a-zA-Z0-9_\\-])*)*$" := by decide
 theorem metricNameRE : Gen.metricNameRE = "^([a-zA-Z_]|(\\$\\{?\\d+\\}?))([a-zA-Z0-9_]|(\\$\\{?\\d+\\}?))*$" := by decide
 theorem labelNameRE : Gen.labelNameRE = "^[a-zA-Z_][a-zA-Z0-9_]+$" := by decide
-theorem templateReplaceCaptureRE : Gen.templateReplaceCaptureRE = "\\$\\{?([a-zA-Z0-9_]+)\\}?" := by decide
+/-- the formatter's reference syntax is `regexp.Expand`'s (`substRefs` scans with `rxExtractU`, the model of `regexp`'s own
+    `extract`): `$$`, `${name}`, `$name` with name = letters, digits, underscore -/
+theorem templateReplaceCaptureRE :
+    Gen.templateReplaceCaptureRE = "\\$\\$|\\$\\{([\\p{L}\\p{Nd}_]+)\\}|\\$([\\p{L}\\p{Nd}_]+)" := by decide
 theorem defaultQuantiles : Gen.defaultQuantiles = [("0.5", "0.05"), ("0.9", "0.01"), ("0.99", "0.001")] := by decide
 
 end SE.Gen.Tie
